@@ -27,7 +27,7 @@ def jitterExt (rates : Nat → Int) (us cs : Nat → F) : Ext F := fun f k _ =>
 
 def jitterState (multiple balance : F) (evals : Nat) (now : Int) : State F :=
   ⟨[("balance", .flt balance), ("arg1", .flt multiple), ("carg0", .int now)],
-   [("arg0", evals), ("rand.Float64", evals), ("math.Cos", evals)], [], []⟩
+   [("arg0", evals), ("rand.Float64", evals), ("math.Cos", evals)], [], [], []⟩
 
 /-- the regenerated closure of `WithJitter`, in any arithmetic: one evaluation of the underlying rate, one random
 draw, and the step `jitterStepG`; the new balance is what was requested minus what was handed out -/
